@@ -244,6 +244,45 @@ def main(argv):
     for u in undecided:
         print("UNDECIDED: %s" % u)
 
+    # -- thorough tier: deeper exploration of the same property -----------------------------------------------------
+    thorough = {}
+    if tier == "thorough" and not violations:
+        # (a) the property's replay family is run over its whole enumeration (in the quick tier it runs only behind a failed
+        #     obligation or as a bounded stand-in); a scenario that fails its reference is a violation with a replayed input
+        fam = SCRIPTS.get(cfg.get("replay"))
+        if fam:
+            outp = os.path.join(HERE, "replays", "%s-thorough-%s.json" % (prop, fam[:-3]))
+            excl = "|".join(sorted({k["tag"] for k in load_known() if k.get("tag")}))
+            try:
+                subprocess.run(["/venv/bin/python", os.path.join(HERE, "replay", fam), "--search", "--out", outp] + (["--exclude", excl] if fam in ("exprfam.py", "defnfam.py") else []),
+                               env=dict(os.environ, PYTHONPATH=REPO), cwd=os.path.join(HERE, "replay"), capture_output=True, text=True, timeout=1800)
+                r = json.load(open(outp))
+            except Exception as e:
+                r = {"found": False, "harness_error": repr(e)}
+            thorough["replay_family"] = {"family": fam, "scenarios_tried": r.get("tried"), "mismatch_found": bool(r.get("found")), "harness_errors": r.get("harness_errors") or r.get("harness_error")}
+            if r.get("found"):
+                doc = {"property": prop, "failed_obligation": "thorough tier: the replay family %s disagrees with its reference on the real tree" % fam, "replay": r,
+                       "program": r.get("program"), "how_to_replay": "PYTHONPATH=%s /venv/bin/python %s/replay/%s --scenario <this file>" % (REPO, HERE, fam)}
+                json.dump(doc, open(outp, "w"), indent=1, default=str)
+                violations.append(("thorough:" + fam, os.path.relpath(outp, HERE), True))
+                print("VIOLATION property=%s replay=%s" % (prop, os.path.relpath(outp, HERE)))
+        # (b) how tight are the contracts: mechanically mutated bodies of the cone's units (in memory, never /repo) are verified
+        #     against the same contracts; reported only -- a surviving mutant says something about the contract, not the code
+        import mutants as M
+        per_unit = int(os.environ.get("VERIF_MUTANTS_PER_UNIT", "3"))
+        tally = {"killed": 0, "survived": 0, "undecided": 0}
+        survivors = []
+        budget_end = time.time() + float(os.environ.get("VERIF_MUTANT_BUDGET_S", "900"))
+        for uname in cfg["units"]:
+            if time.time() > budget_end:
+                break
+            for desc, verdict in M.sample(P.U[uname], REG, per_unit, seed):
+                tally[verdict.split(" ")[0]] += 1
+                if verdict == "survived":
+                    survivors.append("%s: %s" % (uname, desc))
+        thorough["mutants"] = dict(tally, survivors=survivors[:40], per_unit=per_unit,
+                                   note="in-memory AST mutants of the units under contract, verified against the unchanged contracts; survivors are reported, never a verdict")
+
     # -- evidence -----------------------------------------------------------------------------------------------
     backends = {}
     for _, _, r in all_obls:
@@ -262,6 +301,7 @@ def main(argv):
             "samples": [o.name for _, o, _ in all_obls[:: max(1, len(all_obls) // 12)]][:12],
             "guards": guard_report,
             "bounded": bounded_report,
+            "thorough": thorough,
             "failed_obligation_classes": sorted(groups),
             "known_findings_matched": [g for _, g in known_hits],
             "explanation": cfg.get("explanation", "every obligation listed is a verification condition generated from the current source "
